@@ -255,7 +255,8 @@ def c14_witness(counter_first=True):
 
 class C07(SeqProp):
     pid = "C07"
-    spec_import = "Require Import PV.Spec.SpecC07."
+    spec_import = "Require Import PV.Spec.SpecC07.\nRequire PV.Proofs.C07SpecCustomRegs."
+    dom_fn = "PV.Proofs.C07SpecCustomRegs.dom07c"
     spec_fn = "spec_c07"
     known_fn = "known_mixed_kinds"
     rule = ("each scenario builds 1-8 collectors (counters, gauges, histograms, pulling gauges, vectors with 0-4 children) grouped in "
